@@ -306,6 +306,23 @@ ADDED6 = {
 }
 
 
+ADDED7 = {
+ "C01": "Negative kinds intron-moved-down/up; annotation genomic-a-run (known finding).",
+ "C02": "Recount in a reused output folder.",
+ "C03": "Annotation in shuffled record order.",
+ "C06": "Configuration two-files (two BAM files, automatic file-name grouping).",
+ "C07": "World w13 (stale folder with another read-group table's split files).",
+ "C08": "Pickled resolver records as a third route of L1b.",
+ "C11": "Worlds knownends (annotated ends in every list order), mmtie (primary / secondary alignment of unassigned reads), ends with two tail clusters.",
+ "C12": "Cache mode reused-folder; shuffled style compared with the plain reference.",
+ "C14": "Second gene whose isoforms share the introns inside the reads and differ upstream.",
+ "C15": "Block loaders of the pipeline stages in the stream search; reuse world two-experiments-mixed.",
+ "C18": "Locus with a non-canonical intron next to canonical ones; the documented meaning of only_canonical.",
+ "C19": "Exon-from-junction helpers at every position incl. the -1 sentinel.",
+ "C20": "Real align_fasta over stand-ins for minimap2 / samtools sort / samtools index (BAM and .bai); scenarios alignment-two-files-vs-one, alignment-other-options, reads-replaced-during-alignment, star-gtf-two-databases-same-mtime, star-gtf-rewrite-vs-cached-reader.",
+}
+
+
 def main():
     props = [json.loads(l) for l in open(os.path.join(HERE, "properties.jsonl"))]
     checks = []
@@ -314,7 +331,7 @@ def main():
         pid = p["id"]
         if pid in CHECKS:
             level, tech, text, note, ref = CHECKS[pid]
-            text = text + ADDED.get(pid, "") + (" " + ADDED2[pid] if pid in ADDED2 else "") + (" " + ADDED3[pid] if pid in ADDED3 else "") + (" " + ADDED4[pid] if pid in ADDED4 else "") + (" " + ADDED5[pid] if pid in ADDED5 else "") + (" " + ADDED6[pid] if pid in ADDED6 else "")
+            text = text + ADDED.get(pid, "") + (" " + ADDED2[pid] if pid in ADDED2 else "") + (" " + ADDED3[pid] if pid in ADDED3 else "") + (" " + ADDED4[pid] if pid in ADDED4 else "") + (" " + ADDED5[pid] if pid in ADDED5 else "") + (" " + ADDED6[pid] if pid in ADDED6 else "") + (" " + ADDED7[pid] if pid in ADDED7 else "")
             checks.append({
                 "property_id": pid,
                 "quick_cmd": "./check %s --tier quick" % pid,
